@@ -643,15 +643,17 @@ class PageElement(object):
         `PageElement.decomposed` property.
         """
         self.extract()
-        e: _AtMostOneElement = self
-        next_up: _AtMostOneElement = None
-        while e is not None:
-            next_up = e.next_element
+        # Collect everything beneath this element before wiping
+        # anything: a BeautifulSoup object may stand outside the
+        # next_element chain of its own children.
+        doomed: List[PageElement] = [self]
+        if isinstance(self, Tag):
+            doomed.extend(self.descendants)
+        for e in doomed:
             e.__dict__.clear()
             if isinstance(e, Tag):
                 e.contents = []
             e._decomposed = True
-            e = next_up
 
     def _last_descendant(
         self, is_initialized: bool = True, accept_self: bool = True
